@@ -68,6 +68,11 @@ pub fn universe() -> Vec<RuleSpec> {
     r.path = "/a/@n".into();
     r.markers.push(("n".into(), "[0-9a-z]+".into()));
     v.push(r);
+    // r8 lazy marker: the capture depends on the end anchor of the capture regex
+    let mut r = mk("r8", "r8 dynamic /a/@z lazy .+?");
+    r.path = "/a/@z".into();
+    r.markers.push(("z".into(), ".+?".into()));
+    v.push(r);
     v
 }
 
